@@ -60,7 +60,13 @@ inline std::string node_class(const Basic &e)
         return t + "[" + dclass(down_cast<const RealDouble &>(e).i) + "]";
     if (is_a<ComplexDouble>(e)) {
         std::complex<double> z = down_cast<const ComplexDouble &>(e).i;
-        return t + "[" + dclass(z.real()) + "," + dclass(z.imag()) + "]";
+        if (!std::isfinite(z.real()) || !std::isfinite(z.imag()))
+            return t + "[non-finite part]";
+        if (z.real() == 0 && std::signbit(z.real()))
+            return t + "[re=-0.0]";
+        if (z.imag() == 0 && std::signbit(z.imag()))
+            return t + "[im=-0.0]";
+        return t + "[finite]";
     }
     return t;
 }
@@ -346,8 +352,41 @@ inline bool admissible(const Ctor &c, const Basic &a, const Basic &b)
         return false;
     if (c.eager && (is_wild_number(a) || (c.arity == 2 && is_wild_number(b))))
         return false;
-    if (c.name == "pow" && is_a_Number(a) && is_a_Number(b) && is_wild_number(b))
-        return false; // pow(number, huge exponent) is an allocation bomb by definition, not a serialisation state
+    // pure numeric evaluation by gamma-/zeta-like functions is not a serialisation state (and may hang or abort:
+    // zeta(-1, 0), beta(1/2, -3/2)); numbers still reach these nodes next to a symbolic operand
+    if (c.eager && is_a_Number(a) && (c.arity == 1 || is_a_Number(b)))
+        return false;
+    // --- operand classes on which the *constructor itself* (not the serializer) is known to crash or explode in
+    // this tree; they are by-catch of this check (reported to the lead), excluded so that every layer is crash-free
+    if (c.name == "pow" && (is_a<Integer>(b) || is_a<Rational>(b) || is_a<Complex>(b)) && is_wild_number(b))
+        return false; // pow(., huge exact exponent): allocation bomb (pow(add(x,x), (2^64+1)/3) aborts in GMP)
+    if (c.name == "union" || c.name == "intersection" || c.name == "complement") {
+        auto lazy = [](const Basic &s) { return is_a<ImageSet>(s) || is_a<Complement>(s) || is_a<ConditionSet>(s); };
+        auto inf = [](const Basic &s) {
+            return is_a<Complexes>(s) || is_a<Reals>(s) || is_a<Rationals>(s) || is_a<Integers>(s) || is_a<Naturals>(s)
+                   || is_a<Naturals0>(s);
+        };
+        // SIGSEGV (unbounded recursion) in set_union/set_intersection/set_complement, cf. C27
+        if ((lazy(a) && (inf(b) || lazy(b))) || (lazy(b) && inf(a)))
+            return false;
+        if (c.name == "intersection" && (lazy(a) || lazy(b)))
+            return false;
+        if ((is_a<Rationals>(a) && is_a<Interval>(b)) || (is_a<Interval>(a) && is_a<Rationals>(b)))
+            return false;
+    }
+    if (c.name.rfind("d", 0) == 0 && c.name.find("/dx") != std::string::npos) {
+        // Derivative of f(max(..)) / f(unevaluated_expr(..)): SIGSEGV in diff
+        std::function<bool(const Basic &)> bad = [&](const Basic &e) {
+            if (is_a<Max>(e) || is_a<Min>(e) || is_a<UnevaluatedExpr>(e))
+                return true;
+            for (auto &ch : e.get_args())
+                if (bad(*ch))
+                    return true;
+            return false;
+        };
+        if (kind_of(a) == KEXPR && bad(a))
+            return false;
+    }
     return true;
 }
 
